@@ -688,8 +688,9 @@ def check_C14(tier, seed):
     pid = "C14"
     res = Result(pid, tier, seed)
     res.rule = ("cols: probe-observed column per row for every kernel family (linear/log8/log16/heavy hitters), widths 1..2^20+7, depths 1..8, NUL/high-byte keys vs the Lean "
-                "Impl.fasthash64(key, row) % width and an independent Python reference; searches (NOT proofs): χ² uniformity of each row and of the joint distribution of every pair of rows "
-                "over 6000-20000 keys at width 16 (tail < 1e-9), and Zipf streams of 3000-5000 keys at widths 32-128, depth 8 against exp(-depth).")
+                "Impl.fasthash64(key, row) % width and an independent Python reference (a different column rule is a BROKEN CORRESPONDENCE, not by itself a violation of C14); searches (NOT "
+                "proofs) that decide whether C14 fails: χ² uniformity of each row and of the joint distribution of every pair of rows over 6000-20000 keys at width 16 (tail < 1e-9) for depths "
+                "incl. 3, 5, 6, 7 and for short and long (> 16 byte) keys, degenerate rows at width 65536/2^20+7, and Zipf streams of 3000-5000 keys at widths 32-128, depth 8 against exp(-depth).")
     lean = lean_check(pid)
     rng = rng_for(seed, pid)
     slice_misc.cols_slice(res, rng, tier)
